@@ -126,7 +126,7 @@ class Check:
     def enumerated(self, tier):
         out = []
         lengths = [1, 5, 50] if tier == 'quick' else [1, 2, 5, 20, 100]
-        starts = ['first', 'mid-motion', 'after-kick', 'late'] if tier == 'quick' else ['zero', 'first', 'second', 'mid-motion', 'after-kick', 'late']
+        starts = ['zero', 'first', 'mid-motion', 'after-kick', 'late'] if tier == 'quick' else ['zero', 'first', 'second', 'mid-motion', 'after-kick', 'late']
         table = QUICK_TABLE if tier == 'quick' else QUICK_TABLE + DEFAULT_TABLE
         for kind, params, tail, tol in table:
             archs = ['stream', 'batch'] if C.KINDS[kind].streaming else ['batch']
@@ -137,10 +137,13 @@ class Check:
                     for sname in starts:
                         for ln in lengths:
                             s = {'zero': 0, 'first': 1, 'second': 2, 'mid-motion': 90, 'after-kick': 151, 'late': FAULT_ZONE_END - ln}[sname]
-                            if sname == 'zero' and arch == 'stream':
+                            if sname == 'zero' and (arch == 'stream' or (tier == 'quick' and ln > 5)):
                                 continue        # a stream starts from a given attitude; tick 0 is never fed
                             f = [{'kind': 'dropout', 'sensor': list(sensors), 'start': s, 'len': ln}]
                             out.append(self._scenario(kind, params, tail, tol, arch, f))
+                            if sname == 'zero' and C.KINDS[kind].q0_route == 'q0':
+                                # the class's own initialisation from a zeroed first sample (no q0 given)
+                                out.append(self._scenario(kind, dict(params, _own_init=True), tail, tol, arch, f))
                 if tier != 'quick':
                     # two disjoint dropouts of different sensors
                     for s1, s2 in (('acc', 'mag'), ('gyr', 'acc'), ('mag', 'gyr')):
@@ -181,10 +184,12 @@ class Check:
         n = hist.n
         g, a, m = hist.gyr, hist.acc[key], hist.mag[key]
         if arch == 'batch':
-            if kind.q0_route == 'q0':
+            own_init = bool(p.get('_own_init'))
+            if kind.q0_route == 'q0' and not p.get('_own_init'):
                 # start the batch run at the truth too (convergence from a far initial attitude is C05's subject)
                 tq = hist.truth[0]
                 p = dict(p, q0=[float(x) for x in (qm.qconj(tq) if kind.conj else tq)])
+            p = {k: v for k, v in p.items() if k != '_own_init'}
             res, obj = K.run_batch(kind, p, hist.dt, dip, g.copy(), a.copy(), m.copy())
             extra = None
             if obj is not None and hasattr(obj, 'W') and kind.name.startswith('complementary'):
